@@ -116,7 +116,7 @@ pub fn check_case(table: &Table, mapfile: &str, case: &Case, pool: (usize, usize
                 break;
             },
             Ok(m1) => {
-                if let Some(diff) = compare_traces(&src, &m1, &cmp_regs, time_observable) {
+                if let Some(diff) = compare_traces_ex(&src, &m1, &cmp_regs, time_observable, time_observable) {
                     res.failures.push(Failure { signature: format!("{which}:behaviour:{}", case.body), detail: detail(json!({"valuation": vi, "difficulty": d, "diff": diff, "oracle": "AstVm(source) vs M1(emitted)", "instrs": fmt_instrs(&instrs)})) });
                     break;
                 }
@@ -129,7 +129,7 @@ pub fn check_case(table: &Table, mapfile: &str, case: &Case, pool: (usize, usize
                 res.failures.push(Failure { signature: format!("{which}:raised-undefined:{}", case.body), detail: detail(json!({"valuation": vi, "difficulty": d, "stopped": s})) });
                 break;
             } }
-            if let Some(diff) = compare_traces(&src, &rz, &cmp_regs, time_observable) {
+            if let Some(diff) = compare_traces_ex(&src, &rz, &cmp_regs, time_observable, time_observable) {
                 res.failures.push(Failure { signature: format!("{which}:behaviour-raised:{}", case.body), detail: detail(json!({"valuation": vi, "difficulty": d, "diff": diff, "oracle": "AstVm(source) vs AstVm(raise(emitted))", "instrs": fmt_instrs(&instrs)})) });
                 break;
             }
@@ -142,7 +142,7 @@ pub fn run(id: &str, tier: &str) -> Report {
     let mut rep = Report::new(id, tier, "model_checking");
     let thorough = tier == "thorough";
     let (bound, depth, max_stmts) = if thorough { (4, 3, 3) } else { (3, 2, 2) };
-    let tables: Vec<TableCfg> = if thorough { TableCfg::variants() } else { TableCfg::variants().into_iter().take(4).chain(TableCfg::variants().into_iter().skip(8).take(1)).collect() };
+    let tables: Vec<TableCfg> = if thorough || id == "C02" { TableCfg::variants() } else { TableCfg::variants().into_iter().take(4).chain(TableCfg::variants().into_iter().skip(8).take(1)).collect() };
     let pools: Vec<(usize, usize)> = if id == "C05" {
         if thorough { (0..=4).flat_map(|i| (0..=4).map(move |f| (i, f))).collect() } else { vec![(0, 0), (1, 1), (2, 1), (2, 2), (4, 4)] }
     } else if thorough { vec![(4, 4), (2, 2), (1, 1), (3, 1), (1, 3), (0, 0)] } else { vec![(4, 4), (2, 2), (1, 1)] };
